@@ -36,6 +36,19 @@ theorem span_spec_partial (fl : Flags) (toks : List Tok) :
 theorem span_spec_of_sound (hs : ParseSoundDocument) : SpanSpecDocument :=
   fun fl toks d h => matches_spans _ _ _ (hs fl toks d h).2
 
+/-- spans for documents, given soundness of the type-system layer when reachable -/
+theorem span_spec_document_of (fl : Flags) (hTS : ∀ fuel, fl.allowTypeSystem = true → TSSound fl fuel)
+    (toks : List Tok) (d : Document) (h : parseDocument fl toks = .ok d) : Item.SpansAll fl [documentV d] toks :=
+  matches_spans _ _ _ (parseDocument_sound_of fl hTS toks d h).2
+
+/-- `span_spec` for EXECUTABLE documents (`allow_type_system=False`, every other flag combination): every node of
+    the tree — operations, variable definitions (incl. default values and directives), fields, arguments,
+    directives, fragments, values, types, names — has `loc` = (start of its first token, end of its last token),
+    children consecutive inside the parent. -/
+theorem span_spec_executable (fl : Flags) (hx : fl.allowTypeSystem = false) (toks : List Tok) (d : Document)
+    (h : parseDocument fl toks = .ok d) : Item.SpansAll fl [documentV d] toks :=
+  matches_spans _ _ _ (parse_sound_executable fl hx toks d h).2
+
 /-! ### `no_location` -/
 
 mutual
